@@ -250,6 +250,12 @@ func serveTCPSocket(conn *net.TCPConn, addr *net.TCPAddr, inbound chan<- Service
 			return
 		}
 
+		// A total length shorter than the header itself would never consume the header.
+		if totalLen < 6 {
+			util.Log(conn, "Error during header inspection: invalid total length %d", totalLen)
+			return
+		}
+
 		buffer := make([]byte, totalLen)
 		len, err := io.ReadFull(connBuffer, buffer)
 		if err != nil {
